@@ -177,86 +177,107 @@ def readLine (inp : List Char) : Option (List Char × List Char) :=
     | [] => some (line, [])
     | _ :: rest' => some (line ++ ['\n'], rest')
 
+/-- `NativeLenFn.Call` -/
+def natLen (args : List Val) (σ : Store) : NatRes :=
+  match args with
+  | [.arr r] => .ok (.num (F64.ofNat (σ.arrs[r]?.getD []).length), σ)
+  | [_] => .error "len function only works on arrays".toList
+  | _ => .error "len function expects exactly 1 argument".toList
+
+/-- `NativeAppendFn.Call` -/
+def natAppend (args : List Val) (σ : Store) : NatRes :=
+  match args with
+  | a :: x :: xs =>
+    (match a with
+     | .arr r =>
+       let (σ', v) := σ.newArr ((σ.arrs[r]?.getD []) ++ x :: xs)
+       .ok (v, σ')
+     | _ => .error "append function only works on arrays".toList)
+  | _ => .error "append function expects at least 2 arguments (array and element(s))".toList
+
+/-- `NativeRemoveFn.Call` -/
+def natRemove (args : List Val) (σ : Store) : NatRes :=
+  match args with
+  | [a, i] =>
+    (match a with
+     | .arr r =>
+       let xs := σ.arrs[r]?.getD []
+       (match toInt64 i with
+        | none => .error "array index must be an integer".toList
+        | some k =>
+          if k < 0 || k.toNat ≥ xs.length then .error "array index out of bounds".toList
+          else
+            let (σ', v) := σ.newArr (xs.eraseIdx k.toNat)
+            .ok (v, σ'))
+     | _ => .error "remove function only works on arrays".toList)
+  | _ => .error "remove function expects exactly 2 arguments (array and index)".toList
+
+/-- `NativeDeleteFn.Call` -/
+def natDelete (args : List Val) (σ : Store) : NatRes :=
+  match args with
+  | [o, k] =>
+    (match o with
+     | .obj r =>
+       (match k with
+        | .str key =>
+          let ps := σ.objs[r]?.getD []
+          if (ps.lookup key).isSome then
+            .ok (.obj r, { σ with objs := σ.objs.set r (ps.filter (fun p => p.1 != key)) })
+          else .error ("key '".toList ++ key ++ "' not found in object".toList)
+        | _ => .error "delete function expects the second argument to be a string key".toList)
+     | _ => .error "delete function only works on objects".toList)
+  | _ => .error "delete function expects exactly 2 arguments (object and key)".toList
+
+/-- `NativeKeysFn.Call` -/
+def natKeys (args : List Val) (σ : Store) : NatRes :=
+  match args with
+  | [.obj r] =>
+    let ks := sortKeys ((σ.objs[r]?.getD []).map (·.1))
+    let (σ', v) := σ.newArr (ks.map .str)
+    .ok (v, σ')
+  | [_] => .error "keys function only works on objects".toList
+  | _ => .error "keys function expects exactly 1 argument".toList
+
+/-- `NativeValuesFn.Call` -/
+def natValues (args : List Val) (σ : Store) : NatRes :=
+  match args with
+  | [.obj r] =>
+    let ps := σ.objs[r]?.getD []
+    let ks := sortKeys (ps.map (·.1))
+    let (σ', v) := σ.newArr (ks.map fun k => (ps.lookup k).getD .nil)
+    .ok (v, σ')
+  | [_] => .error "values function only works on objects".toList
+  | _ => .error "values function expects exactly 1 argument".toList
+
+/-- `NativePowFn.Call` -/
+def natPow (P : Platform) (args : List Val) (σ : Store) : NatRes :=
+  match args with
+  | [a, b] =>
+    (match numArg a "base must be a number" with
+     | .error m => .error m
+     | .ok x =>
+       match numArg b "exponent must be a number" with
+       | .error m => .error m
+       | .ok y => .ok (.num (P.pow x y), σ))
+  | _ => .error "pow function expects exactly 2 arguments".toList
+
 /-- `Callable.Call` of each built-in except `ইনপুট` (these fail without side effect) -/
 def callPure (P : Platform) (n : Native) (args : List Val) (σ : Store) : NatRes :=
   match n with
   | .clock => .ok (.num P.now, σ)
-  | .len =>
-    (match args with
-     | [.arr r] => .ok (.num (F64.ofNat (σ.arrs[r]?.getD []).length), σ)
-     | [_] => .error "len function only works on arrays".toList
-     | _ => .error "len function expects exactly 1 argument".toList)
-  | .append =>
-    (match args with
-     | a :: x :: xs =>
-       (match a with
-        | .arr r =>
-          let (σ', v) := σ.newArr ((σ.arrs[r]?.getD []) ++ x :: xs)
-          .ok (v, σ')
-        | _ => .error "append function only works on arrays".toList)
-     | _ => .error "append function expects at least 2 arguments (array and element(s))".toList)
-  | .remove =>
-    (match args with
-     | [a, i] =>
-       (match a with
-        | .arr r =>
-          let xs := σ.arrs[r]?.getD []
-          (match toInt64 i with
-           | none => .error "array index must be an integer".toList
-           | some k =>
-             if k < 0 || k.toNat ≥ xs.length then .error "array index out of bounds".toList
-             else
-               let (σ', v) := σ.newArr (xs.eraseIdx k.toNat)
-               .ok (v, σ'))
-        | _ => .error "remove function only works on arrays".toList)
-     | _ => .error "remove function expects exactly 2 arguments (array and index)".toList)
-  | .delete =>
-    (match args with
-     | [o, k] =>
-       (match o with
-        | .obj r =>
-          (match k with
-           | .str key =>
-             let ps := σ.objs[r]?.getD []
-             if (ps.lookup key).isSome then
-               .ok (.obj r, { σ with objs := σ.objs.set r (ps.filter (fun p => p.1 != key)) })
-             else .error ("key '".toList ++ key ++ "' not found in object".toList)
-           | _ => .error "delete function expects the second argument to be a string key".toList)
-        | _ => .error "delete function only works on objects".toList)
-     | _ => .error "delete function expects exactly 2 arguments (object and key)".toList)
-  | .keys =>
-    (match args with
-     | [.obj r] =>
-       let ks := sortKeys ((σ.objs[r]?.getD []).map (·.1))
-       let (σ', v) := σ.newArr (ks.map .str)
-       .ok (v, σ')
-     | [_] => .error "keys function only works on objects".toList
-     | _ => .error "keys function expects exactly 1 argument".toList)
-  | .values =>
-    (match args with
-     | [.obj r] =>
-       let ps := σ.objs[r]?.getD []
-       let ks := sortKeys (ps.map (·.1))
-       let (σ', v) := σ.newArr (ks.map fun k => (ps.lookup k).getD .nil)
-       .ok (v, σ')
-     | [_] => .error "values function only works on objects".toList
-     | _ => .error "values function expects exactly 1 argument".toList)
+  | .len => natLen args σ
+  | .append => natAppend args σ
+  | .remove => natRemove args σ
+  | .delete => natDelete args σ
+  | .keys => natKeys args σ
+  | .values => natValues args σ
   | .abs => math1 F64.abs args σ "abs"
   | .sqrt => math1 F64.sqrt args σ "sqrt"
   | .sin => math1 P.sin args σ "sin"
   | .cos => math1 P.cos args σ "cos"
   | .tan => math1 P.tan args σ "tan"
   | .round => math1 F64.round args σ "round"
-  | .pow =>
-    (match args with
-     | [a, b] =>
-       (match numArg a "base must be a number" with
-        | .error m => .error m
-        | .ok x =>
-          match numArg b "exponent must be a number" with
-          | .error m => .error m
-          | .ok y => .ok (.num (P.pow x y), σ))
-     | _ => .error "pow function expects exactly 2 arguments".toList)
+  | .pow => natPow P args σ
   | .min => minmax F64.lt "min" args σ
   | .max => minmax F64.gt "max" args σ
   | .input => .error "input".toList
